@@ -135,7 +135,7 @@ fn single_cases(tier: Tier) -> Vec<FaultCase> {
 				Tier::Quick => vec![(i % 2 == 0, 1 + (i % 3 == 0) as usize)],
 				Tier::Thorough => vec![(false, 1), (true, 1), (i % 2 == 0, 3)],
 			};
-			variants.into_iter().map(move |(pp, attempts)| FaultCase { faults: vec![f.clone()], previous_pair: pp, kp_reuse: false, attempts, nonce_on_get: false, hook_faults: vec![], file_hooks: false }).collect::<Vec<_>>()
+			variants.into_iter().map(move |(pp, attempts)| FaultCase { faults: vec![f.clone()], previous_pair: pp, kp_reuse: false, attempts, nonce_on_get: false, hook_faults: vec![], file_hooks: false, retry_after: None }).collect::<Vec<_>>()
 		})
 		.collect()
 }
@@ -146,7 +146,7 @@ fn hook_cases() -> Vec<FaultCase> {
 	for h in hooks {
 		for b in ["exit:1", "exit:2", "exit:126", "exit:255", "kill"] {
 			for pp in [false, true] {
-				out.push(FaultCase { faults: vec![], previous_pair: pp, kp_reuse: false, attempts: 2, nonce_on_get: false, hook_faults: vec![(h.to_string(), b.to_string())], file_hooks: true });
+				out.push(FaultCase { faults: vec![], previous_pair: pp, kp_reuse: false, attempts: 2, nonce_on_get: false, hook_faults: vec![(h.to_string(), b.to_string())], file_hooks: true, retry_after: None });
 			}
 		}
 	}
@@ -309,6 +309,9 @@ pub struct PauseCase {
 	pub pos: Pos,
 	pub action: Action,
 	pub previous_pair: bool,
+	/// every response of the CA is delayed by this much (a slow failure)
+	#[serde(default)]
+	pub delay_ms: u64,
 }
 
 fn pause_cases() -> Vec<PauseCase> {
@@ -316,11 +319,11 @@ fn pause_cases() -> Vec<PauseCase> {
 	for pos in [Pos::Dir, Pos::NewAccount, Pos::NewOrder] {
 		for action in [Action::Acme("unauthorized".into()), Action::NonJson(503), Action::DropAfterRead, Action::Empty(500), Action::BadJson200, Action::Acme("rejectedIdentifier".into())] {
 			for pp in [false, true] {
-				out.push(PauseCase { pos: pos.clone(), action: action.clone(), previous_pair: pp });
+				out.push(PauseCase { pos: pos.clone(), action: action.clone(), previous_pair: pp, delay_ms: 0 });
 			}
 		}
 	}
-	out.push(PauseCase { pos: Pos::Dir, action: Action::DropBeforeRead, previous_pair: false });
+	out.push(PauseCase { pos: Pos::Dir, action: Action::DropBeforeRead, previous_pair: false, delay_ms: 0 });
 	out
 }
 
@@ -336,7 +339,7 @@ fn exec_pause(case: &PauseCase) -> Outcome {
 		Err(e) => return Outcome::Infra(e),
 	};
 	let ids = vec![("dns".to_string(), "p.pause.test".to_string())];
-	let plan = CaPlan { faults: vec![Fault { pos: case.pos.clone(), nth: 1, repeat: 1_000_000, action: case.action.clone(), cert: None }], ..CaPlan::default() };
+	let plan = CaPlan { faults: vec![Fault { pos: case.pos.clone(), nth: 1, repeat: 1_000_000, action: case.action.clone(), cert: None }], delays_ms: if case.delay_ms > 0 { vec![case.delay_ms] } else { vec![] }, ..CaPlan::default() };
 	let ca = match MockCa::start(plan, vec![(bb::ident_key(&ids), "c1".into())]) {
 		Ok(c) => c,
 		Err(e) => return Outcome::Infra(e),
@@ -363,7 +366,7 @@ fn exec_pause(case: &PauseCase) -> Outcome {
 		Err(e) => return Outcome::Infra(e),
 	};
 	// first failed attempt, not held
-	let ok = coll.wait_until(&|r| r.iter().any(|x| bb::is_post(x) && x.t_end.is_some()), Duration::from_secs(60), &mut || daemon.state() != ProcState::Alive);
+	let ok = coll.wait_until(&|r| r.iter().any(|x| bb::is_post(x) && x.t_end.is_some()), Duration::from_secs(60 + case.delay_ms / 1000 * 2), &mut || daemon.state() != ProcState::Alive);
 	if !ok {
 		let tail = daemon.stderr_tail(15);
 		let st = daemon.state();
@@ -396,7 +399,7 @@ fn exec_pause(case: &PauseCase) -> Outcome {
 			return Outcome::fail("C07:tight-loop", format!("a request of the next attempt reached the CA {gap_ms} ms after the failed attempt ended ({n_more} requests within 1.6 s); {case:?}"));
 		}
 	}
-	Outcome::pass(true, vec![format!("pause-pos={}", case.pos.name()), format!("prev={}", case.previous_pair)])
+	Outcome::pass(true, vec![format!("pause-pos={}", case.pos.name()), format!("prev={}", case.previous_pair), format!("attempt-lasted~{}s", case.delay_ms / 1000)])
 }
 
 pub fn multi_attempt_strategy() -> impl Strategy<Value = FaultCase> {
@@ -407,16 +410,29 @@ pub fn multi_attempt_strategy() -> impl Strategy<Value = FaultCase> {
 }
 
 pub fn run(ctx: &Ctx, rep: &mut Report) {
-	rep.rule = "single: the exhaustive (position x action) fault matrix of a 2-identifier issuance (see C03), 1..3 consecutive attempts; hooks: each hook of the certificate and of the account x exit behaviour {1,2,126,255,SIGKILL} x {previous pair, none}; plans: random plans of 2..5 faults over 2..4 attempts in one process; multi: 2..6 certificates sharing or not account and endpoint, a random non-empty proper subset failing permanently; pause: directory/account/order-level faults against the build WITHOUT the hooks (shipped waits). Oracle: daemon alive after every attempt; every attempt ends (120 s watchdog vs 0.2 s typical); exactly one post-operation run per attempt (attempts delimited by directory requests in the CA log); is_success=true => the CA served the certificate in that attempt and both files hold it and its key; CA delivered intact and no hook failed => true; failure => non-empty status text; hard hook failure => false; every fault-free certificate issued while the others keep failing and are retried; no request of the next attempt within 1 s after a failed attempt ended. Non-trivial = an attempt failed after at least one successful non-directory request, or several certificates with one failing, or a pause case.".into();
+	rep.rule = "single: the exhaustive (position x action) fault matrix of a 2-identifier issuance (see C03), 1..3 consecutive attempts; hooks: each hook of the certificate and of the account x exit behaviour {1,2,126,255,SIGKILL} x {previous pair, none}; plans: random plans of 2..5 faults over 2..4 attempts in one process; multi: 2..6 certificates sharing or not account and endpoint, a random non-empty proper subset failing permanently; pause: directory/account/order-level faults against the build WITHOUT the hooks (shipped waits), plus failed attempts that themselves last 61.5 s (thorough: also 11 s and 125 s) because the CA answers slowly. Oracle: daemon alive after every attempt; every attempt ends (120 s watchdog vs 0.2 s typical); exactly one post-operation run per attempt (attempts delimited by directory requests in the CA log); is_success=true => the CA served the certificate in that attempt and both files hold it and its key; CA delivered intact and no hook failed => true; failure => non-empty status text; hard hook failure => false; every fault-free certificate issued while the others keep failing and are retried; no request of the next attempt within 1 s after a failed attempt ended. Non-trivial = an attempt failed after at least one successful non-directory request, or several certificates with one failing, or a pause case.".into();
 	rep.assume("pause measured as (arrival of the next request at the CA) - (exit of the post-operation hook), a sound lower bound of the true gap");
 	run_replays::<FaultCase>(ctx, rep, "single", &exec);
 	run_replays::<FaultCase>(ctx, rep, "hooks", &exec);
 	run_replays::<FaultCase>(ctx, rep, "plans", &exec);
 	run_replays::<MultiCase>(ctx, rep, "multi", &exec_multi);
 	run_replays::<PauseCase>(ctx, rep, "pause", &exec_pause);
+	run_replays::<PauseCase>(ctx, rep, "pause-slow", &exec_pause);
 	if ctx.replay.is_some() {
 		return;
 	}
+	// a failed attempt that itself lasted longer than any plausible pause (61.5 s): started now, joined at the end
+	let slow_cases: Vec<PauseCase> = if section_enabled("pause-slow") {
+		let mut v = vec![PauseCase { pos: Pos::Dir, action: Action::NonJson(503), previous_pair: false, delay_ms: 61_500 }];
+		if ctx.tier == Tier::Thorough {
+			v.push(PauseCase { pos: Pos::Dir, action: Action::Acme("unauthorized".into()), previous_pair: true, delay_ms: 125_000 });
+			v.push(PauseCase { pos: Pos::Dir, action: Action::Empty(500), previous_pair: false, delay_ms: 11_000 });
+		}
+		v
+	} else {
+		vec![]
+	};
+	let slow_handles: Vec<_> = slow_cases.iter().cloned().map(|c| std::thread::spawn(move || exec_pause(&c))).collect();
 	run_list(ctx, rep, "single", &single_cases(ctx.tier), default_par(), &exec);
 	if let Some(s) = rep.sections.get_mut("single") {
 		s.exhaustive = Some(true);
@@ -425,4 +441,7 @@ pub fn run(ctx: &Ctx, rep: &mut Report) {
 	run_prop(ctx, rep, "plans", &multi_attempt_strategy(), ctx.tier.pick(120, 2000), default_par(), &exec);
 	run_prop(ctx, rep, "multi", &multi_strategy(), ctx.tier.pick(100, 600), 8, &exec_multi);
 	run_list(ctx, rep, "pause", &pause_cases(), default_par(), &exec_pause);
+	let slow_results: Vec<Outcome> = slow_handles.into_iter().map(|h| h.join().unwrap_or(Outcome::Infra("slow pause case panicked".into()))).collect();
+	let idx = std::sync::atomic::AtomicUsize::new(0);
+	run_list(ctx, rep, "pause-slow", &slow_cases, 1, &|_| slow_results[idx.fetch_add(1, std::sync::atomic::Ordering::SeqCst) % slow_results.len().max(1)].clone());
 }
